@@ -60,7 +60,10 @@ def run_variant(v):
         with open(os.path.join(tmp, relfile), 'w') as fh:
             fh.write(mutated)
         env = dict(os.environ, VERIF_REPO=tmp, VERIF_EVIDENCE_DIR=os.path.join(tmp, 'evidence'), VERIF_OUT_DIR=os.path.join(tmp, 'out'))
-        p = subprocess.run([os.path.join(VERIF, 'check'), pid], env=env, capture_output=True, text=True, timeout=600)
+        try:
+            p = subprocess.run([os.path.join(VERIF, 'check'), pid], env=env, capture_output=True, text=True, timeout=120)
+        except subprocess.TimeoutExpired:
+            return (pid, name, 'TIMEOUT', 'check did not finish in 120 s')
         outp = p.stdout + p.stderr
         if benign:
             return (pid, name, 'ok' if p.returncode == 0 else 'FALSE-ALARM', 'exit %d' % p.returncode + ('' if p.returncode == 0 else '\n' + outp[-1500:]))
